@@ -115,6 +115,9 @@ theorem decWith_enc {N lam m r : ℕ} (hN : 1 < N) (hm : m < N) (hlamN : Nat.Cop
   have e : m * lam % N * invModD (lam % N) N ≡ m [MOD N] := by simpa using e1.trans e3
   exact Eq.trans e (Nat.mod_eq_of_lt hm)
 
+example : decWith 35 12 (enc 35 17 3) = 17 :=   -- λ = lcm(4, 6) = 12, 3^12 ≡ 1 (mod 35)
+  decWith_enc (by norm_num) (by norm_num) (by norm_num) (by decide)
+
 /-- **Textbook decryption inverts encryption**: for `N = p·q` (distinct primes, `gcd(N, φ(N)) = 1`),
 every plaintext `m < N` and every nonce `r ∈ ℤ_N^*`, `dec p q (enc N m r) = m`. -/
 theorem paillier_dec_enc {p q m r : ℕ} (hp : p.Prime) (hq : q.Prime) (hpq : p ≠ q)
@@ -191,6 +194,9 @@ theorem paillier_dec_op {p q m1 r1 m2 r2 : ℕ} (hp : p.Prime) (hq : q.Prime) (h
     rw [Nat.Coprime, ← Nat.gcd_rec, Nat.gcd_comm]
     exact Nat.Coprime.mul_left hr1 hr2
 
+example : dec 11 13 (ctMul (11 * 13) (enc (11 * 13) 100 17) (enc (11 * 13) 99 5)) = (100 + 99) % (11 * 13) :=
+  paillier_dec_op (by norm_num) (by norm_num) (by norm_num) (by norm_num) (by norm_num) (by norm_num)
+
 /-- **Symmetric plaintext range**: on `-N/2 ≤ x < N/2` the embedding into `ℤ_N` is inverted by
 `Normalise` (`toSym`); conversely every residue is the image of its normal form, which lies in the
 range up to the single tie `x = N/2` for even `N` (Paillier moduli are odd). -/
@@ -204,6 +210,9 @@ example : toSym 143 (fromSym 143 (-71)) = -71 ∧ fromSym 143 (-71) < 143 :=
 theorem symmetric_range_inv {N : ℕ} (hN : 0 < N) {m : ℕ} (hm : m < N) :
     fromSym N (toSym N m) = m ∧ -(N : ℤ) ≤ 2 * toSym N m ∧ 2 * toSym N m ≤ N :=
   sym_roundtrip_inv hN hm
+
+example : fromSym 143 (toSym 143 72) = 72 ∧ -(143 : ℤ) ≤ 2 * toSym 143 72 ∧ 2 * toSym 143 72 ≤ 143 :=
+  symmetric_range_inv (by norm_num) (by norm_num)
 
 /-! ### the secret-key paths: CRT / Fermat-quotient decryption, N-th root by CRT, CRT arithmetic -/
 
